@@ -19,6 +19,8 @@ def gen_typed_case(rng):
     kind = rng.choice(['sqltable', 'sqlquery', 'json', 'parquet', 'feather', 'orc', 'csv'])
     n = rng.choice([2, 3, 4, 6])
     coltypes = [rng.choice(['int', 'int', 'real', 'bool', 'text', 'mixednum']) for _ in range(3)]
+    if kind in ('parquet', 'feather') and rng.random() < 0.5:
+        coltypes[rng.randrange(3)] = 'datetime'        # a datetime64 column: pandas formats such a column as a whole when asked column-wise
     if kind in ('sqltable', 'sqlquery'):
         coltypes = [{'bool': 'int', 'mixednum': 'real'}.get(t, t) for t in coltypes]     # SQLite stores booleans as integers; NUMERIC affinity rewrites values
     def val(t):
@@ -30,6 +32,8 @@ def gen_typed_case(rng):
             return ['f', rng.choice([1, 2, 10, -4])]
         if t == 'bool':
             return ['b', rng.random() < 0.5]
+        if t == 'datetime':
+            return ['d', rng.choice(['2024-03-01 00:00:00', '2024-03-02 00:00:00', '1999-12-31 00:00:00', '2024-03-01 10:30:00', '2020-02-29 23:59:59'])]
         if t == 'mixednum':
             return rng.choice([['i', rng.choice([1, 2, 10])], ['f', rng.choice([2, 3])]])
         return rng.choice(['a', 'b', '10', '01', 'x y'])
